@@ -19,14 +19,17 @@ import (
 
 // CaseC15 is one call of one exported function with one kind of invalid argument.
 type CaseC15 struct {
-	Fn   string   // target function (see c15Targets)
-	Kind string   // malformed-id | bad-zoom | bad-point | nil-point | bad-option | negative | heights | object-zoom
-	IDs  []string // first ID list (notation depends on Fn)
-	IDs2 []string // second ID list (overlap checks)
-	Bad  int      // index of the malformed entry in IDs (or len(IDs)+index in IDs2), -1 if none
-	Z    []int64  // numeric arguments: zooms / layers, tried in this order (mild first)
-	F    []F64    // float arguments (coordinates, radius, heights)
-	Edit string   // how the malformed ID was derived (class label)
+	Fn        string   // target function (see c15Targets)
+	Kind      string   // malformed-id | bad-zoom | bad-point | nil-point | bad-option | negative | heights | object-zoom
+	IDs       []string // first ID list (notation depends on Fn)
+	IDs2      []string // second ID list (overlap checks)
+	Bad       int      // index of the malformed entry in IDs (or len(IDs)+index in IDs2), -1 if none
+	Z         []int64  // numeric arguments: zooms / layers, tried in this order (mild first)
+	F         []F64    // float arguments (coordinates, radius, heights)
+	Edit      string   // how the malformed ID was derived (class label)
+	Prior     []string `json:",omitempty"` // well-formed list(s) the malformed case was derived from: called first (history)
+	Prior2    []string `json:",omitempty"`
+	replaying bool
 }
 
 // wellFormed: exactly n '/'-separated fields, each accepted by strconv.ParseInt (the library's own notion of an integer field).
@@ -106,6 +109,11 @@ func malform(t *rapid.T, id string, n int) (string, string) {
 		var label string
 		switch rapid.IntRange(0, 9).Draw(t, "edit") {
 		case 0:
+			if rapid.Bool().Draw(t, "join") {
+				// two IDs delivered as one string (a separator that is not the list boundary)
+				sep := rapid.SampledFrom([]string{",", ";", " ", "\n", "|", "\t", ", "}).Draw(t, "sep")
+				return id + sep + id, "joined-entries"
+			}
 			i := rapid.IntRange(0, len(q)-1).Draw(t, "delAt")
 			q = append(q[:i:i], q[i+1:]...)
 			label = "field-deleted"
@@ -234,6 +242,7 @@ func genC15(t *rapid.T) *CaseC15 {
 			}
 		}
 		total := len(c.IDs) + len(c.IDs2)
+		c.Prior, c.Prior2 = append([]string(nil), c.IDs...), append([]string(nil), c.IDs2...)
 		c.Bad = rapid.IntRange(0, total-1).Draw(t, "badAt")
 		var base string
 		if c.Bad < len(c.IDs) {
@@ -250,7 +259,12 @@ func genC15(t *rapid.T) *CaseC15 {
 			}
 		}
 		c.Edit = label
-		if c.Bad < len(c.IDs) {
+		if label == "joined-entries" && !tg.single && c.Bad+1 < len(c.IDs) {
+			// the joined string stands for two consecutive entries of the original list
+			sep := m[len(base) : len(m)-len(base)]
+			m = c.IDs[c.Bad] + sep + c.IDs[c.Bad+1]
+			c.IDs = append(append(append([]string{}, c.IDs[:c.Bad]...), m), c.IDs[c.Bad+2:]...)
+		} else if c.Bad < len(c.IDs) {
 			c.IDs[c.Bad] = m
 		} else {
 			c.IDs2[c.Bad-len(c.IDs)] = m
@@ -515,6 +529,15 @@ func checkC15Malformed(c *CaseC15, fl *Fails) {
 		}
 	}
 	z0, z1 := c.Z[0], c.Z[1]
+	if c.Prior != nil && !c.replaying {
+		// history: the same function is first called with a well-formed list the malformed one was derived from
+		// (a result cached from that call must not make the malformed input acceptable)
+		pc := *c
+		pc.IDs, pc.IDs2, pc.Prior, pc.replaying = c.Prior, c.Prior2, nil, true
+		pc.Bad = -1
+		var ignore Fails
+		c15CallOnly(&pc, &ignore)
+	}
 	switch c.Fn {
 	case "shape.GetPointOnExtendedSpatialId":
 		p, err := shape.GetPointOnExtendedSpatialId(c.IDs[0], enum.Vertex)
@@ -642,6 +665,59 @@ func checkC15Malformed(c *CaseC15, fl *Fails) {
 	case "object.ResetExtendedSpatialID":
 		o, _ := object.NewExtendedSpatialID("1/0/0/1/0")
 		need(o.ResetExtendedSpatialID(c.IDs[0]), "")
+	}
+}
+
+// c15CallOnly calls the target with the case's lists and discards the outcome (the prior, well-formed call).
+func c15CallOnly(c *CaseC15, fl *Fails) {
+	defer func() { _ = recover() }()
+	tg := c15Find(c.Fn)
+	if tg == nil || len(c.IDs) == 0 || (tg.lists == 2 && len(c.IDs2) == 0) {
+		return
+	}
+	c.Bad = 0
+	saved := c.IDs[0]
+	// checkC15Malformed returns early for a well-formed "bad" entry, so call the functions directly
+	z0, z1 := c.Z[0], c.Z[1]
+	switch c.Fn {
+	case "integrate.ChangeExtendedSpatialIdsZoom":
+		_, _ = integrate.ChangeExtendedSpatialIdsZoom(c.IDs, z0, z1)
+	case "integrate.ChangeSpatialIdsZoom":
+		_, _ = integrate.ChangeSpatialIdsZoom(c.IDs, z0)
+	case "integrate.MergeExtendedSpatialIds":
+		_, _ = integrate.MergeExtendedSpatialIds(c.IDs, z0, z1)
+	case "integrate.MergeSpatialIds":
+		_, _ = integrate.MergeSpatialIds(c.IDs, z0)
+	case "operated.GetNspatialIdsAroundVoxcels":
+		_, _ = operated.GetNspatialIdsAroundVoxcels(c.IDs, 1, 1)
+	case "detector.CheckExtendedSpatialIdsOverlap":
+		_, _ = detector.CheckExtendedSpatialIdsOverlap(c.IDs[0], c.IDs2[0])
+	case "detector.CheckSpatialIdsOverlap":
+		_, _ = detector.CheckSpatialIdsOverlap(c.IDs[0], c.IDs2[0])
+	case "detector.CheckExtendedSpatialIdsArrayOverlap":
+		_, _ = detector.CheckExtendedSpatialIdsArrayOverlap(c.IDs, c.IDs2)
+	case "detector.CheckSpatialIdsArrayOverlap":
+		_, _ = detector.CheckSpatialIdsArrayOverlap(c.IDs, c.IDs2)
+	case "transform.ConvertExtendedSpatialIDsToQuadkeysAndVerticalIDs":
+		_, _ = transform.ConvertExtendedSpatialIDsToQuadkeysAndVerticalIDs(c.IDs, z0, z1, 0, 0)
+	case "transform.ConvertSpatialIDsToQuadkeysAndVerticalIDs":
+		_, _ = transform.ConvertSpatialIDsToQuadkeysAndVerticalIDs(c.IDs, z0, z1, 0, 0)
+	case "transform.ConvertExtendedSpatialIDsToQuadkeysAndAltitudekeys":
+		_, _ = transform.ConvertExtendedSpatialIDsToQuadkeysAndAltitudekeys(c.IDs, z0, z1, 25, 1<<25)
+	case "shape.ConvertSpatialIdsToExtendedSpatialIds":
+		_, _ = shape.ConvertSpatialIdsToExtendedSpatialIds(c.IDs)
+	case "shape.ConvertExtendedSpatialIdsToSpatialIds":
+		_, _ = shape.ConvertExtendedSpatialIdsToSpatialIds(c.IDs)
+	case "shape.GetPointOnExtendedSpatialId":
+		_, _ = shape.GetPointOnExtendedSpatialId(saved, enum.Vertex)
+	case "shape.GetPointOnSpatialId":
+		_, _ = shape.GetPointOnSpatialId(saved, enum.Vertex)
+	case "object.NewExtendedSpatialID", "object.ResetExtendedSpatialID":
+		_, _ = object.NewExtendedSpatialID(saved)
+	case "transform.FitClearanceAroundExtendedSpatialID":
+		_, _, _ = transform.FitClearanceAroundExtendedSpatialID(saved, 0) // clearance 0 terminates on every grid
+	default:
+		_ = operated.GetShiftingSpatialID(saved, 1, -1, 1)
 	}
 }
 
@@ -966,7 +1042,7 @@ func sweepC15(tier string, emit func(*CaseC15)) {
 func init() {
 	register(PropT[CaseC15]{
 		ID:   "C15",
-		Rule: "rapid: one call of one exported function with one invalid argument. 50% malformed ID strings: a structural edit of a valid ID (field deleted/added/emptied, spaces, hostile fields such as 1e3, 0x10, full-width digits, 2^63, NUL, suffixes, leading/trailing slash, whole hostile strings) alone or at any position of a list of valid IDs, for 23 ID-taking functions, with valid zoom arguments near the IDs' own zooms; 20% invalid zoom arguments (first -1/36 resp. 0/32 for quadkeys, then far values up to +-2^63, on either zoom position) for 21 functions; 10% coordinates (lon/lat just beyond the limits, huge, +-Inf; and valid points for the storage clause); 10% nil points / unknown options; 10% negative radii and layer counts, maxHeight<minHeight. Sweep: 33 hostile whole strings x every ID-taking function x positions; -1/36/0/32 on every zoom position of every zoom-taking function; limit coordinates. Non-trivial: malformed string one edit away from a valid ID or behind a valid list prefix, numeric argument within 1 of its bound, coordinate within 1e-6 of a limit, every nil/option/negative/heights case.",
+		Rule: "rapid: one call of one exported function with one invalid argument. 50% malformed ID strings: a structural edit of a valid ID (field deleted/added/emptied, two IDs joined by a foreign separator, spaces, hostile fields such as 1e3, 0x10, full-width digits, 2^63, NUL, suffixes, leading/trailing slash, whole hostile strings) alone or at any position of a list of valid IDs, for 23 ID-taking functions, with valid zoom arguments near the IDs' own zooms, each preceded by a call of the same function with the well-formed list it was derived from (history); 20% invalid zoom arguments (first -1/36 resp. 0/32 for quadkeys, then far values up to +-2^63, on either zoom position) for 21 functions; 10% coordinates (lon/lat just beyond the limits, huge, +-Inf; and valid points for the storage clause); 10% nil points / unknown options; 10% negative radii and layer counts, maxHeight<minHeight. Sweep: 33 hostile whole strings x every ID-taking function x positions; -1/36/0/32 on every zoom position of every zoom-taking function; limit coordinates. Non-trivial: malformed string one edit away from a valid ID or behind a valid list prefix, numeric argument within 1 of its bound, coordinate within 1e-6 of a limit, every nil/option/negative/heights case.",
 		Assumptions: []string{
 			"oracle: outcome classification per call: recovered panic = violation; nil error on an excluded input = violation; non-empty list / true together with an error where the documentation promises empty / false = violation",
 			"an ID is malformed iff it does not have exactly 4/5 '/'-separated fields each accepted by strconv.ParseInt (the library's notion of an integer field, e.g. '+5' and '007' are integers)",
